@@ -389,6 +389,9 @@ func C13(e *Env) {
 			plans = append(plans, plan{[]spyfs.Fault{{Index: a, Kind: spyfs.FEIO}, {Index: b, Kind: kind2, K: 1 + rng.Intn(3000)}}, fmt.Sprintf("pair: EIO at #%d + %s at #%d", a, kind2, b), "pair", "pair"})
 		}
 		for _, pl := range plans {
+			if run.TooMany() {
+				break
+			}
 			if sc.Write {
 				c13ResetUp(root)
 			}
@@ -610,6 +613,9 @@ func c13Endings(e *Env, tro, trw *c13Target, scen []c13Scenario) {
 				continue
 			}
 			for _, end := range endings {
+				if run.TooMany() {
+					return
+				}
 				t := tro
 				if sc.Write {
 					t = trw
